@@ -73,6 +73,13 @@ def check(rep, tier, rng):
     while len(arglists) < nl:
         k = 2 + rng.below(2)
         arglists.append([rng.choice(names) for _ in range(k)])
+    # the same file more than once: by the same name, through `./x/../`, through a symbolic link
+    os.makedirs(os.path.join(d, "sub"), exist_ok=True)
+    v0, v1 = pool[0][0], pool[1][0]
+    os.symlink(os.path.join(d, v0), os.path.join(d, "link_to_v0.x"))
+    for alias in ("sub/../" + v0, "link_to_v0.x", "./" + v0):
+        lib_out[alias] = lib_out[v0]
+    arglists += [[v0, v0], [v0, v1, v0], [v0, "sub/../" + v0], [v0, "link_to_v0.x"], ["./" + v0, v0, v0], [v1, v1, v1], ["rejected.x", "rejected.x"], [v0, "rejected.x", v0]]
     model = run_driver(["cli %s %s" % (t3.hx(exe), " ".join(lib_out[a] for a in args)) for args in arglists])
     nviol, tie, distinct, kinds = 0, 0, set(), {}
     for args, m in zip(arglists, model):
@@ -109,7 +116,7 @@ def check(rep, tier, rng):
     rep.cov.update({"evaluations": len(arglists), "distinct_nontrivial": len(distinct), "traces_validated_against_impl": len(arglists) - tie,
                     "input_kinds": kinds,
                     "rule": "the fastxdr binary built from the working tree on argument lists of 0-3 paths drawn from {valid specs, empty file, grammar-rejected, "
-                            "emitter-Err, generator panic, non-UTF-8, missing, directory, a valid text with BOM / NBSP / ZWSP / FF / NUL / ^Z / VT / CR / LS / NEL added at either end, CRLF line ends}; stdout compared byte for byte with the library's own results "
+                            "emitter-Err, generator panic, non-UTF-8, missing, directory, a valid text with BOM / NBSP / ZWSP / FF / NUL / ^Z / VT / CR / LS / NEL added at either end, CRLF line ends}, the same file given twice (same name, ./x/../ path, symbolic link); stdout compared byte for byte with the library's own results "
                             "(Generator::default().generate via harness/front) and with Fx.Cli; distinct = (outcome kinds of the arguments, exit code)",
                     "samples": [{"args": a, "model": m[:80]} for a, m in list(zip(arglists, model))[::max(1, len(arglists) // 6)]][:6]})
     if tie and nviol == 0:
